@@ -26,6 +26,7 @@ import (
 	"sort"
 	"strings"
 	"sync"
+	"time"
 
 	"filippo.io/age"
 	"filippo.io/age/agessh"
@@ -44,6 +45,7 @@ type idKind struct {
 	// an inconsistent identity: declared public key pub, which is not the key
 	// stored in the file
 	pub      ssh.PublicKey
+	pemBytes []byte // key file contents when it is not a fixture file
 	mismatch bool
 	stored   *party
 }
@@ -51,8 +53,8 @@ type idKind struct {
 // hdr is a header: the parties of its stanzas in order, nil = a stanza of an
 // unknown type.
 type hdr struct {
-	nearTag bool // holds a near-tag stanza (tagvar.go)
-	neg     bool // for the identity that declares the negation of its stored key
+	nearTag bool    // holds a near-tag stanza (tagvar.go)
+	extra   *idKind // built for this inconsistent identity kind
 	names   []string
 	parties []*party
 	stanzas []refage.Stanza
@@ -133,7 +135,11 @@ func newLive(k *idKind, p pass) (*liveID, error) {
 	if pub == nil {
 		pub = keys.EncPub(k.enc)
 	}
-	id, err := agessh.NewEncryptedSSHIdentity(pub, keys.Data(k.enc), func() ([]byte, error) {
+	pemBytes := k.pemBytes
+	if pemBytes == nil {
+		pemBytes = keys.Data(k.enc)
+	}
+	id, err := agessh.NewEncryptedSSHIdentity(pub, append([]byte(nil), pemBytes...), func() ([]byte, error) {
 		l.prompts++
 		return step{p: l.p}.answer()
 	})
@@ -256,7 +262,7 @@ func precededBy(ids []*liveID, j int) string {
 	return "after-plain-identities"
 }
 
-func multiStages(r *mon.Run, ps map[string]*party, negKind *idKind) {
+func multiStages(r *mon.Run, ps map[string]*party, extra []*idKind) {
 	pool := []*party{ps["X1"], ps["enc_ed1"], ps["enc_rsa1"], ps["ed1"], ps["rsa1"], nil}
 	var hdrs []*hdr
 	maxH := r.Pick(3, 4)
@@ -285,16 +291,25 @@ func multiStages(r *mon.Run, ps map[string]*party, negKind *idKind) {
 			}
 		}
 	}
-	// an identity whose declared key is the negation of its stored Ed25519 key
-	if negKind != nil {
-		nd, A, X, R1 := negKind.key, ps["enc_ed1"], ps["X1"], ps["rsa1"]
-		for _, sel := range [][]*party{{nd, X}, {X, nd}, {nd, A}, {A, nd}, {A, X}, {nd, R1}} {
-			hdrs = append(hdrs, &hdr{parties: sel, neg: true})
+	// inconsistent identities (declared key = negation of the stored Ed25519
+	// key; stored key of an unsupported type): headers around their declared key
+	for _, k := range extra {
+		D, X := k.key, ps["X1"]
+		other := ps["rsa1"]
+		if D.typ == "ssh-rsa" {
+			other = ps["ed1"]
+		}
+		sels := [][]*party{{D, X}, {X, D}, {D, other}, {X, other}}
+		if k.stored != nil {
+			sels = append(sels, []*party{D, k.stored}, []*party{k.stored, D})
+		}
+		for _, sel := range sels {
+			hdrs = append(hdrs, &hdr{parties: sel, extra: k})
 		}
 	}
 	mon.Par(len(hdrs), func(i int) {
-		nt, ng := hdrs[i].nearTag, hdrs[i].neg
-		defer func() { hdrs[i].neg = ng }()
+		nt, ng := hdrs[i].nearTag, hdrs[i].extra
+		defer func() { hdrs[i].extra = ng }()
 		hdrs[i] = buildHdr(hdrs[i].parties)
 		hdrs[i].nearTag = nt
 	})
@@ -312,11 +327,12 @@ func multiStages(r *mon.Run, ps map[string]*party, negKind *idKind) {
 	for k := 2; k <= 3; k++ {
 		perms(len(kinds), k, func(ix []int) { lists = append(lists, ix) })
 	}
-	var negLists [][]int
-	if negKind != nil {
-		kinds = append(kinds, negKind)
+	// an extra kind is listed with plain-x25519 and with encrypted-rsa, both orders
+	extraLists := map[*idKind][][]int{}
+	for _, k := range extra {
+		kinds = append(kinds, k)
 		n := len(kinds) - 1
-		negLists = [][]int{{n, 2}, {2, n}, {n, 1}, {1, n}} // with plain-x25519 and with encrypted-rsa, both orders
+		extraLists[k] = [][]int{{n, 2}, {2, n}, {n, 1}, {1, n}}
 	}
 	r.Set("multi_headers", len(hdrs))
 	r.Set("multi_identity_lists", len(lists))
@@ -328,8 +344,8 @@ func multiStages(r *mon.Run, ps map[string]*party, negKind *idKind) {
 	}
 	var jobs []job
 	for h := range hdrs {
-		if hdrs[h].neg {
-			for _, ix := range negLists {
+		if hdrs[h].extra != nil {
+			for _, ix := range extraLists[hdrs[h].extra] {
 				jobs = append(jobs, job{h, ix})
 			}
 			continue
@@ -473,6 +489,22 @@ func decryptCase(r *mon.Run, fs *findings, h *hdr, ids []*liveID) {
 	r.SampleN("multi-"+wantClass, 1, map[string]any{"stage": "multi-identity Decrypt", "header": h.names, "identities": listNames(ids), "prompts": gotP, "outcome": gotClass})
 }
 
+// callWithPatience runs f and reports whether it returned within stepPatience
+// (callbacks of this stage answer at once, so the clock starts with the call).
+func callWithPatience(f func()) bool {
+	done := make(chan struct{})
+	go func() {
+		defer close(done)
+		f()
+	}()
+	select {
+	case <-done:
+		return true
+	case <-time.After(stepPatience):
+		return false
+	}
+}
+
 func kindClass(k *idKind) string {
 	if k.enc != "" {
 		return "encrypted-identity"
@@ -499,6 +531,9 @@ func sameStanza(a *age.Stanza, b age.Stanza) bool {
 // unwrapCase calls Unwrap of every identity of the list (the first one once
 // more at the end: the cached path) on ONE shared stanza slice.
 func unwrapCase(r *mon.Run, fs *findings, h *hdr, ids []*liveID) {
+	if hangsReported.Load() >= maxHangs {
+		return
+	}
 	n := len(h.stanzas)
 	// the caller's slice, with two sentinel stanzas in its spare capacity
 	full := make([]*age.Stanza, n+2)
@@ -551,15 +586,24 @@ func unwrapCase(r *mon.Run, fs *findings, h *hdr, ids []*liveID) {
 		var fk []byte
 		var err error
 		gotClass, detail := "", ""
-		func() {
+		returned := callWithPatience(func() {
 			defer func() {
 				if x := recover(); x != nil {
 					gotClass, detail = "panic", fmt.Sprint(x)
 				}
 			}()
 			fk, err = l.id.Unwrap(shared)
-		}()
+		})
 		r.Count("unwrap_calls_on_shared_slice", 1)
+		if !returned {
+			if hangsReported.Add(1) <= maxHangs {
+				fs.add(&finding{key: "unwrap:" + kindClass(l.kind) + ":never-returned", n: len(h.names) + j,
+					what: fmt.Sprintf("%s: call %d (%s) had not returned after %v: the identity kept a trace of its earlier call", name, j, l.kind.name, stepPatience),
+					replay: map[string]any{"stage": "Unwrap sequence on one shared stanza slice", "header": h.names, "sequence": listNames(seq), "call": j,
+						"file_base64": base64.StdEncoding.EncodeToString(h.file)}})
+			}
+			return
+		}
 		switch {
 		case gotClass == "panic":
 		case err == nil && bytes.Equal(fk, h.fk):
